@@ -32,10 +32,10 @@ KANI = [{
         H("fanout_2", ["C09"], "bounded", "sorted tables of 2 ids (first 3 bytes symbolic)", tier="off", timeout=3000, functions=FAN[:1]),
         H("fanout_4", ["C09"], "bounded", "sorted tables of 4 ids", tier="off", timeout=5400, functions=FAN[:1]),
         H("fanout_6", ["C09"], "bounded", "sorted tables of 6 ids", tier="off", functions=FAN[:1]),
-        H("lookup_prefix_2_range", ["C09"], "bounded", "2 sorted ids, prefixes of 4..=7 hex digits, with candidate range", functions=FAN[1:]),
+        H("lookup_prefix_2_range", ["C09"], "bounded", "2 sorted ids, prefixes of 4..=7 hex digits, with candidate range", timeout=2400, functions=FAN[1:]),
         H("lookup_prefix_2_norange", ["C09"], "bounded", "2 sorted ids, without candidate range", functions=FAN[1:]),
         H("lookup_prefix_3_range", ["C09"], "bounded", "3 sorted ids, prefixes of 4..=7 hex digits, with candidate range", tier="thorough", timeout=2400, functions=FAN[1:]),
-        H("lookup_prefix_3_norange", ["C09"], "bounded", "3 sorted ids, prefixes of 4..=7 hex digits, without candidate range", functions=FAN[1:]),
+        H("lookup_prefix_3_norange", ["C09"], "bounded", "3 sorted ids, prefixes of 4..=7 hex digits, without candidate range", timeout=2400, functions=FAN[1:]),
         H("lookup_prefix_4_range", ["C09"], "bounded", "4 sorted ids, with candidate range", tier="thorough", timeout=5400, mem_gb=16, functions=FAN[1:]),
         H("lookup_prefix_4_norange", ["C09"], "bounded", "4 sorted ids, without candidate range", tier="thorough", timeout=2400, functions=FAN[1:]),
         H("lookup_prefix_5_range", ["C09"], "bounded", "5 sorted ids, with candidate range", tier="off", timeout=2400, functions=FAN[1:]),
